@@ -445,12 +445,52 @@ Proof.
   split; intros x Ex; [rewrite Ea in Ex|rewrite Eb in Ex]; apply app_inv_tail in Ex; subst; auto.
 Qed.
 
+Lemma tp_push l s : tp s (set_inq (inq s ++ l) s).
+Proof. constructor; try reflexivity. exists []. split; [reflexivity|]. split; [reflexivity|]. intros _. reflexivity. Qed.
+Lemma RR_handle1 s : RRc s (handle1 e cc s).
+Proof.
+  unfold handle1. destruct (inq s) as [|[[[ch v] d] sd] tl]; [apply RR_refl|].
+  eapply RR_trans; [|apply (RR_csv cc Wc NDg NDc)]. apply RR_quiet; try reflexivity. exists []; split; reflexivity.
+Qed.
+Lemma handle1_outs s : exists a, outs (handle1 e cc s) = a ++ outs s.
+Proof.
+  unfold handle1. destruct (inq s) as [|[[[ch v] d] sd] tl]; [exists []; reflexivity|].
+  destruct (csv_frame e cc (u8 ch) v d sd (set_inq tl s)) as [_ _ _ Ho]. exact Ho.
+Qed.
+(* the SDK timers: countdown callback, delayed state save, uptime poll *)
+Lemma RR_fire i s : RRc s (fire e cc i s).
+Proof.
+  unfold fire. set (tm := get_t i s). set (n := len (c_late cc)). set (late := if 0 <? n then _ else 0).
+  set (s1 := if 0 <? n then set_li (li s + 1) s else s).
+  set (s2 := if now s1 <? t_due tm + late then set_now (t_due tm + late) s1 else s1).
+  set (s3 := if negb (t_per tm =? 0) then _ else _).
+  assert (Q3 : RRc s s3).
+  { apply RR_quiet; unfold s3, s2, s1; destruct (negb _); destruct i; cbn [set_t]; destruct (_ <? _ + _); destruct (0 <? n); try reflexivity;
+      exists []; split; reflexivity. }
+  eapply RR_trans; [exact Q3|]. unfold run_cb. destruct i.
+  - apply (RR_cd_cb cc Wc NDg NDc).
+  - apply RR_quiet; try reflexivity. eexists [_]; split; reflexivity.
+  - unfold uptime_usec. cbn [fst]. apply RR_quiet; try reflexivity. eexists [_]; split; reflexivity.
+Qed.
+Lemma RR_adv fuel : forall end_ s, RRc s (adv e cc fuel end_ s).
+Proof.
+  induction fuel as [|k IH]; intros end_ s; cbn [adv]; [apply RR_emit; intros; discriminate|].
+  destruct (pick s end_); [|apply RR_refl]. eapply RR_trans; [apply RR_fire|apply IH].
+Qed.
+Lemma RR_advance dt s : RRc s (advance e cc dt s).
+Proof.
+  unfold advance. set (s1 := adv _ _ _ _ _). assert (R1 : RRc s s1) by apply RR_adv.
+  destruct (now s1 <? now s + dt); [|exact R1]. eapply RR_trans; [exact R1|]. apply RR_quiet; try reflexivity. exists []; split; reflexivity.
+Qed.
+
 (* one event after registration: transport, the handler (an RR step), transport *)
 Definition mid (s : st) (x : ev6) : st * st * st :=     (* (after the retry, after the handler, before the Q line) *)
   match x with
-  | CIter => (dev_iterate s, dev_iterate s, iterate6 (dev_iterate s))
-  | CSetV ch v dur sender => let sa := dev_iterate s in let sm := channel_set_value e cc (u8 ch) v dur sender sa in (sa, sm, iterate6 sm)
-  | CGrp ch v dur => let sa := dev_iterate s in let sm := channel_set_value e cc (u8 ch) v dur 0 sa in (sa, sm, iterate6 sm)
+  | CIter => let sa := dev_iterate s in let sm := handle1 e cc sa in (sa, sm, iterate6 sm)
+  | CSetV ch v dur sender => let sa := dev_iterate (set_inq (inq s ++ [(ch, v, dur, sender)]) s) in let sm := handle1 e cc sa in (sa, sm, iterate6 sm)
+  | CGrp ch v dur => let sa := dev_iterate (set_inq (inq s ++ [(ch, v, dur, 0)]) s) in let sm := handle1 e cc sa in (sa, sm, iterate6 sm)
+  | CBurst l => let sa := dev_iterate (set_inq (inq s ++ reqs l) s) in let sm := handle1 e cc sa in (sa, sm, iterate6 sm)
+  | CAdv dt => let sm := if dt <? 0 then s else advance e cc dt s in (s, sm, sm)
   | CBtn idx act => let sm := match nth_error (c6_inputs c) (Z.to_nat idx) with
                               | Some i => if idx <? 0 then s else on_input e cc i (negb (act =? 0)) s | None => s end in (s, sm, sm)
   | CTick dt => let sm := if dt <? 0 then s else cd_cb cc 0 (set_now (now s + dt) s) in (s, sm, sm)
@@ -465,9 +505,9 @@ Lemma mid_spec s x : x <> CReg ->
   tp s sa /\ RRc sa sm /\ tp sm s1 /\ step6 e c s x = emit (q_line s1) s1.
 Proof.
   intros Nx. destruct x; try congruence; cbn [mid]; cbv zeta.
-  - split; [apply dev_iterate_tp|]. split; [apply RR_refl|]. split; [apply iterate6_tp|reflexivity].
-  - split; [apply dev_iterate_tp|]. split; [apply (RR_csv cc Wc NDg NDc)|]. split; [apply iterate6_tp|reflexivity].
-  - split; [apply dev_iterate_tp|]. split; [apply (RR_csv cc Wc NDg NDc)|]. split; [apply iterate6_tp|reflexivity].
+  - split; [apply dev_iterate_tp|]. split; [apply RR_handle1|]. split; [apply iterate6_tp|reflexivity].
+  - split; [eapply tp_trans; [apply tp_push|apply dev_iterate_tp]|]. split; [apply RR_handle1|]. split; [apply iterate6_tp|reflexivity].
+  - split; [eapply tp_trans; [apply tp_push|apply dev_iterate_tp]|]. split; [apply RR_handle1|]. split; [apply iterate6_tp|reflexivity].
   - split; [apply tp_refl|]. split; [|split; [apply tp_refl|reflexivity]].
     destruct (nth_error _ _) as [i|] eqn:En; [|apply RR_refl]. destruct (idx <? 0); [apply RR_refl|].
     apply RR_on_input. eapply nth_error_In; eauto.
@@ -479,14 +519,16 @@ Proof.
   - split; [apply tp_refl|]. split; [|split; [apply tp_refl|reflexivity]]. apply RR_emit. intros; discriminate.
   - split; [apply tp_refl|]. split; [apply RR_chcfg|split; [apply tp_refl|reflexivity]].
   - split; [apply tp_refl|]. split; [|split; [apply tp_refl|reflexivity]]. apply RR_quiet; try reflexivity. exists []; split; reflexivity.
+  - split; [apply tp_refl|]. split; [|split; [apply tp_refl|reflexivity]]. destruct (dt <? 0); [apply RR_refl|apply RR_advance].
+  - split; [eapply tp_trans; [apply tp_push|apply dev_iterate_tp]|]. split; [apply RR_handle1|]. split; [apply iterate6_tp|reflexivity].
 Qed.
 (* the trace of an event only grows (needs no invariant) *)
 Lemma RR_frame_outs s x : x <> CReg -> let '(sa, sm, s1) := mid s x in exists a, outs sm = a ++ outs sa.
 Proof.
   intros Nx. destruct x; try congruence; cbn [mid]; cbv zeta.
-  - exists []; reflexivity.
-  - destruct (csv_frame e cc (u8 ch) v dur sender (dev_iterate s)) as [_ _ _ Ho]. exact Ho.
-  - destruct (csv_frame e cc (u8 ch) v dur 0 (dev_iterate s)) as [_ _ _ Ho]. exact Ho.
+  - apply handle1_outs.
+  - apply handle1_outs.
+  - apply handle1_outs.
   - destruct (nth_error _ _) as [i|]; [|exists []; reflexivity]. destruct (idx <? 0); [exists []; reflexivity|].
     unfold on_input. destruct (_ && negb (i_relay i =? 255)).
     + pose proof (rsw_frame e cc (i_relay i) (if i_type i =? IN_MOTION then if negb (act =? 0) then 1 else 0 else 255) s) as [_ _ _ Ho]. exact Ho.
@@ -498,6 +540,8 @@ Proof.
   - eexists [_]; reflexivity.
   - destruct (chcfg_frame e cc ch func ctype csize ms s) as [_ _ _ Ho]. exact Ho.
   - exists []; reflexivity.
+  - destruct (dt <? 0) eqn:E; [exists []; reflexivity|]. apply Z.ltb_ge in E. destruct (advance_frame e cc dt s E) as [_ _ _ Ho]. exact Ho.
+  - apply handle1_outs.
 Qed.
 Lemma step6_outs' s x : x <> CReg -> exists add, outs (step6 e c s x) = add ++ outs s.
 Proof.
